@@ -16,7 +16,7 @@ import (
 
 func init() {
 	seqChecks["c09"] = &seqCheck{run: runC09, replay: replayC09,
-		rule: "service name {'', s, s.t} x ownership {unset with every subset of handler kinds {Get,Call,Auth,New,Access}; explicit lists of <=2 (3 thorough) entries from 8 patterns, for resources, access or both} x queue group {default, none}; for each accepted configuration every request subject over names of <=3 tokens from {s,t,a,b,o} is matched against the recorded subscriptions with a reference NATS matcher; distinct = distinct (configuration, subscription set, reset payload)"}
+		rule: "service name {'', s, s.t} x ownership {unset with every subset of handler kinds {Get,Call,Auth,New,Access}; explicit lists of <=2 (3 thorough) entries from 8 patterns, for resources, access, both, or one explicit and the other defaulted by the handler kinds} x queue group {default, none}; each configuration is served twice (Shutdown, second Serve on a fresh connection: same subscriptions and reset); x queue group {default, none}; for each accepted configuration every request subject over names of <=3 tokens from {s,t,a,b,o} is matched against the recorded subscriptions with a reference NATS matcher; distinct = distinct (configuration, subscription set, reset payload)"}
 }
 
 var c09Pool = []string{"s", "s.>", "s.a", "s.a.*", "s.*", "s.*.b", ">", "o.>"}
@@ -28,6 +28,7 @@ type c09Case struct {
 	Res, Acc []string
 	Queue    string // "default" | "none"
 	Root     bool   // the only handler is registered on the empty pattern (the service's own name)
+	Mixed    string // "res": resources explicit, access left nil (defaulted by the handler kinds); "acc": the reverse
 }
 
 func (c c09Case) String() string {
@@ -56,6 +57,10 @@ type c09Obs struct {
 	badSubs  []string
 	resets   []string
 	serveErr bool
+	// second start
+	subs2      []string
+	resets2    []string
+	restartErr bool
 }
 
 func c09Run(c c09Case) (o c09Obs, problems []string) {
@@ -67,7 +72,7 @@ func c09Run(c c09Case) (o c09Obs, problems []string) {
 		s.SetWorkerCount(1)
 		var opts []res.Option
 		k := c.Kinds
-		if !c.Unset {
+		if !c.Unset && c.Mixed == "" {
 			k = 1
 		}
 		if k&1 != 0 {
@@ -90,7 +95,12 @@ func c09Run(c c09Case) (o c09Obs, problems []string) {
 		} else {
 			s.Handle("a", opts...)
 		}
-		if !c.Unset {
+		switch {
+		case c.Mixed == "res":
+			s.SetOwnedResources(c.Res, nil)
+		case c.Mixed == "acc":
+			s.SetOwnedResources(nil, c.Acc)
+		case !c.Unset:
 			s.SetOwnedResources(c.Res, c.Acc)
 		}
 		if c.Queue == "none" {
@@ -116,9 +126,44 @@ func c09Run(c c09Case) (o c09Obs, problems []string) {
 				o.resets = append(o.resets, m.Data)
 			}
 		}
+		// a second start on a fresh connection must subscribe and announce the same
+		if s.Shutdown() != nil {
+			return
+		}
+		vsched.Recv(served)
+		vsched.Emit(scen.Mon, "epoch2")
+		conn2 := envnats.New()
+		conn2.KeepPubs = true
+		vsched.Go("serve", func() {
+			s.Serve(conn2)
+			vsched.Send(served, false)
+		})
+		if !vsched.Recv(served) {
+			o.restartErr = true
+			return
+		}
+		vsched.AwaitQuiescence()
+		for _, m := range conn2.Pubs {
+			if m.Subject == "system.reset" {
+				o.resets2 = append(o.resets2, m.Data)
+			}
+		}
+		s.Shutdown()
+		vsched.AwaitQuiescence()
 	})
+	epoch2 := false
 	for _, e := range r.Events {
 		f := strings.Fields(e.Text)
+		if f[0] == "epoch2" {
+			epoch2 = true
+			continue
+		}
+		if epoch2 {
+			if f[0] == "sub" || f[0] == "subbad" {
+				o.subs2 = append(o.subs2, strings.Join(f[1:], " "))
+			}
+			continue
+		}
 		switch f[0] {
 		case "sub":
 			o.subs = append(o.subs, f[1])
@@ -160,6 +205,23 @@ func c09Judge(c c09Case, emit func(desc string)) string {
 		}
 	} else {
 		ownR, ownA = c.Res, c.Acc
+	}
+	if c.Mixed != "" {
+		all := []string{">"}
+		if c.Name != "" {
+			all = []string{c.Name, c.Name + ".>"}
+		}
+		if c.Mixed == "res" {
+			ownR, ownA = c.Res, nil
+			if c.Kinds&16 != 0 {
+				ownA = all
+			}
+		} else {
+			ownR, ownA = nil, c.Acc
+			if c.Kinds&(1|2|4|8) != 0 {
+				ownR = all
+			}
+		}
 	}
 	if len(ownR) == 0 && len(ownA) == 0 {
 		return "nothing-owned"
@@ -243,6 +305,31 @@ func c09Judge(c c09Case, emit func(desc string)) string {
 			emit(fmt.Sprintf("system.reset %s does not list exactly the owned patterns resources=%v access=%v", d, ownR, ownA))
 		}
 	}
+	// the second start (fresh connection) subscribes and announces exactly what the first did
+	if o.restartErr {
+		emit("the second Serve of the same service failed")
+	} else {
+		var first []string
+		for i, sub := range o.subs {
+			first = append(first, sub+" q="+o.queues[i])
+		}
+		if !sameSet(first, o.subs2) {
+			emit(fmt.Sprintf("after Shutdown and a second Serve the subscriptions are %v, the first start made %v", o.subs2, first))
+		}
+		if len(o.resets2) != 1 {
+			emit(fmt.Sprintf("%d system.reset events on the second start, want 1", len(o.resets2)))
+		}
+		for _, d := range o.resets2 {
+			var ev struct {
+				Resources []string `json:"resources"`
+				Access    []string `json:"access"`
+			}
+			json.Unmarshal([]byte(d), &ev)
+			if !sameSet(ev.Resources, ownR) || !sameSet(ev.Access, ownA) {
+				emit(fmt.Sprintf("system.reset %s of the second start does not list exactly the owned patterns resources=%v access=%v", d, ownR, ownA))
+			}
+		}
+	}
 	sort.Strings(o.subs)
 	return strings.Join(o.subs, ",")
 }
@@ -295,6 +382,11 @@ func runC09(c *seqCtx) {
 				run(c09Case{Name: name, Res: l, Acc: []string{}, Queue: q})
 				run(c09Case{Name: name, Res: []string{}, Acc: l, Queue: q})
 				run(c09Case{Name: name, Res: l, Acc: l, Queue: q})
+				// one list explicit, the other left to the default of the registered handler kinds
+				for _, k := range []int{1, 16, 17, 31} {
+					run(c09Case{Name: name, Res: l, Queue: q, Mixed: "res", Kinds: k})
+					run(c09Case{Name: name, Acc: l, Queue: q, Mixed: "acc", Kinds: k})
+				}
 				if c.Stopped() {
 					return
 				}
